@@ -5,7 +5,12 @@
    ("all" expansion, Experiment(...), _validate_schedules guard), standard_qtomography._validate_schedules_str.
 
    Python values are abstracted by what the code can observe with  type(x) != T  /  len  /  ==  :
-   the abstraction function used by the harness is  type(v) is tuple/str/int/bool/NoneType, else "other". *)
+   the abstraction function used by the harness is  type(v) is tuple/str/int/bool/NoneType, else "other".
+
+   This is the model of the code AFTER the two repairs proposed by this property
+     fixes/c20-noniterable-schedule.diff   (_validate_schedules:  j, item = None, None  at the top of the loop body)
+     fixes/c20-qmpt-schedule-length.diff   (StandardQmpt._validate_schedules:  len(schedule) != 3 or ...)
+   The code as it was before these repairs is modelled in Model/C20_PreFix.v (clearly labelled). *)
 From Coq Require Import ZArith List Bool Arith String.
 Import ListNotations.
 Local Open Scope string_scope.
@@ -106,31 +111,34 @@ Definition validate_order (s : list titem) : option order_reason :=
 
 (* ------------------------------------------------------------------ _validate_schedules
    A schedule is a sequence of values (list, tuple, str, ... — anything iterable) or a non-iterable value.
-   For a non-iterable schedule  enumerate(schedule)  raises TypeError inside the try block; the handler
-   formats its message with the loop variables  j, item , which are function locals: unbound (UnboundLocalError
-   escapes) unless an earlier schedule has bound them.  [jst] is that piece of state. *)
+   For a non-iterable schedule  enumerate(schedule)  raises TypeError inside the try block; the handler formats its
+   message with the loop variables  j, item  (both None at that point: they are initialised at the top of the loop
+   body) and raises QuaraScheduleItemError. *)
 Inductive rsched := SSeq (items : list pyval) | SNonIter.
 Inductive vres :=
 | VOk
 | VItemError (i j : nat) (e : pyexc)        (* QuaraScheduleItemError, schedules[i], item j, caught exception e *)
-| VOrderError (i : nat) (r : order_reason)  (* QuaraScheduleOrderError, schedules[i] *)
-| VUnbound (i : nat).                       (* UnboundLocalError escapes from the handler *)
+| VNonIter (i : nat)                        (* QuaraScheduleItemError, schedules[i] is not iterable (j = item = None) *)
+| VOrderError (i : nat) (r : order_reason). (* QuaraScheduleOrderError, schedules[i] *)
 
-Fixpoint validate_from (c : cfg) (i : nat) (jst : option nat) (ss : list rsched) : vres :=
+Fixpoint validate_from (c : cfg) (i : nat) (ss : list rsched) : vres :=
   match ss with
   | [] => VOk
-  | SNonIter :: _ => match jst with None => VUnbound i | Some j => VItemError i j TypeError end
+  | SNonIter :: _ => VNonIter i
   | SSeq items :: rest =>
     match validate_items c 0 items with
     | inr (j, e) => VItemError i j e
     | inl typed =>
       match validate_order typed with
       | Some r => VOrderError i r
-      | None => validate_from c (S i) (match items with [] => jst | _ => Some (List.length items - 1)%nat end) rest
+      | None => validate_from c (S i) rest
       end
     end
   end.
-Definition validate_schedules (c : cfg) (ss : list rsched) : vres := validate_from c 0 None ss.
+Definition validate_schedules (c : cfg) (ss : list rsched) : vres := validate_from c 0 ss.
+(* the two exception classes the property names *)
+Definition is_item_error (r : vres) : Prop := match r with VItemError _ _ _ | VNonIter _ => True | _ => False end.
+Definition is_order_error (r : vres) : Prop := match r with VOrderError _ _ => True | _ => False end.
 
 (* ------------------------------------------------------------------ constructor and setters *)
 Record exp := mkexp { e_cfg : cfg; e_scheds : list rsched }.
@@ -205,9 +213,11 @@ Definition class_cfg (t : tclass) (ns np : nat) : cfg :=
   | Qpt => mkcfg (repeat true ns) (repeat true np) [false] []
   | Qmpt => mkcfg (repeat true ns) (repeat true np) [] [false]
   end.
-(* the guards:  schedule[0][0] != k0 or schedule[1][0] != k1 [or schedule[2][0] != k2] -> ValueError ;
-   then  schedule[p][1] != 0 -> ValueError.  Python's short-circuit  or  and list indexing (IndexError when the
-   schedule is too short) are modelled; the guards run after the Experiment accepted, hence on typed items. *)
+(* the guards:  [len(schedule) != n or] schedule[0][0] != k0 or schedule[1][0] != k1 [or schedule[2][0] != k2]
+   -> ValueError ;  then  schedule[p][1] != 0 -> ValueError.  Python's short-circuit  or  and list indexing
+   (IndexError when the schedule is too short) are modelled; the guards run after the Experiment accepted, hence on
+   typed items.  Only StandardQmpt has the length test (the other three cannot be reached with a longer schedule:
+   theorem tomo_accepts_iff_shape). *)
 Definition class_kinds (t : tclass) : list kind :=
   match t with
   | Qst | Povmt => [KState; KPovm]
@@ -215,6 +225,7 @@ Definition class_kinds (t : tclass) : list kind :=
   | Qmpt => [KState; KMprocess; KPovm]
   end.
 Definition class_zero_pos (t : tclass) : nat := match t with Qst => 0 | _ => 1 end.
+Definition class_len (t : tclass) : option nat := match t with Qmpt => Some 3%nat | _ => None end.
 Inductive gres := GPass | GValueError | GIndexError.
 Fixpoint kinds_match (s : list titem) (pos : nat) (ks : list kind) : gres :=
   match ks with
@@ -230,11 +241,16 @@ Definition index_is_zero (s : list titem) (pos : nat) : gres :=
   | None => GIndexError
   | Some (_, z) => if (z =? 0)%Z then GPass else GValueError
   end.
-Definition guard_one (t : tclass) (s : list titem) : gres :=
+Definition len_ok (t : tclass) (s : list titem) : bool :=
+  match class_len t with Some n => (List.length s =? n)%nat | None => true end.
+(* the kind tests and the index test (everything but the length test) *)
+Definition guard_core (t : tclass) (s : list titem) : gres :=
   match kinds_match s 0 (class_kinds t) with
   | GPass => index_is_zero s (class_zero_pos t)
   | r => r
   end.
+Definition guard_one (t : tclass) (s : list titem) : gres :=
+  if len_ok t s then guard_core t s else GValueError.
 Definition typed_of (c : cfg) (s : rsched) : list titem :=
   match s with
   | SSeq items => match validate_items c 0 items with inl t => t | inr _ => [] end
@@ -246,12 +262,13 @@ Inductive tres :=
 | TGuardValueError (i : nat)    (* the class guard raised ValueError for schedules[i] *)
 | TGuardIndexError (i : nat)    (* the class guard ran off the end of schedules[i]: IndexError escapes *)
 | TStrValueError.               (* _validate_schedules_str *)
-Fixpoint guard_from (t : tclass) (c : cfg) (i : nat) (ss : list rsched) : tres :=
+(* for i, schedule in enumerate(schedules): <guard> ;  [g] is the per-schedule guard of the class *)
+Fixpoint guard_from (g : list titem -> gres) (c : cfg) (i : nat) (ss : list rsched) : tres :=
   match ss with
   | [] => TOk
   | s :: rest =>
-    match guard_one t (typed_of c s) with
-    | GPass => guard_from t c (S i) rest
+    match g (typed_of c s) with
+    | GPass => guard_from g c (S i) rest
     | GValueError => TGuardValueError i
     | GIndexError => TGuardIndexError i
     end
@@ -268,12 +285,15 @@ Definition class_all (t : tclass) (ns np : nat) : list rsched :=
   | Qmpt => flat_map (fun i => map (fun j => sched_of [(KState, i); (KMprocess, 0%Z); (KPovm, j)]) (zseq np)) (zseq ns)
   end.
 Inductive sarg := AStr (s : string) | AList (ss : list rsched).
-Definition tomo_run (t : tclass) (ns np : nat) (ss : list rsched) : tres :=
+(* Experiment(...) first, then the class guard; [g] = the class guard (parameter so that the code before the
+   repair, Model/C20_PreFix.v, shares this definition) *)
+Definition tomo_run_with (g : list titem -> gres) (t : tclass) (ns np : nat) (ss : list rsched) : tres :=
   let c := class_cfg t ns np in
   match validate_schedules c ss with
-  | VOk => guard_from t c 0 ss
+  | VOk => guard_from g c 0 ss
   | r => TExp r
   end.
+Definition tomo_run (t : tclass) (ns np : nat) (ss : list rsched) : tres := tomo_run_with (guard_one t) t ns np ss.
 Definition tomo_construct (t : tclass) (ns np : nat) (a : sarg) : tres :=
   match a with
   | AStr s => if String.eqb s "all" then tomo_run t ns np (class_all t ns np) else TStrValueError
